@@ -68,6 +68,7 @@ def gen_cases(ctx):
             c["regime2"] = int(rng.choice([0, 7]))
             c["N"] = int(rng.choice([2, 4, 10]))
             c["equal"] = True
+            c["reversed"] = False
         else:
             c["regime"] = int(rng.choice([4, 6]))
             c["params"]["gbm_mobility"] = 0.0
